@@ -71,9 +71,9 @@ CLAIMED['C01'] = dict(
     text='Contract proof over the real bodies of align, get_row_size_in_memunits, total_allocated_size_in_bytes, allocate_, create_view and '
          'the four recreate overloads / constructors: the layout contract (every pixel access of the view built over a block of '
          'total_allocated_size_in_bytes(dims) bytes lies inside the block; first pixel and rows aligned) is proved on the real bodies for '
-         'unbounded w,h <= 2^20 per listed alignment value (all alignments <= 4096 in the thorough tier); every pixel operation inside the '
-         'image operations is lowered to an ACCESS obligation (view inside one live block), proved for interleaved and planar images.',
-    note=TRUST + 'Bit-aligned images are not claimed (known over-read of sizeof(BitField) bytes at the last pixels, DESIGN 6.8); caller-supplied buffers and '
+         'unbounded w,h <= 2^20 per listed alignment value (11 values in the quick tier, every alignment 0..64 and a spread up to 4096 in the thorough tier); every pixel operation inside the '
+         'image operations is lowered to an ACCESS obligation (view inside one live block), proved for interleaved, planar and bit-aligned images (for the latter an access covers the sizeof(BitField) bytes the channel accessors load).',
+    note=TRUST + 'A symbolic alignment (% by a symbolic divisor) times out in z3 and is not registered; caller-supplied buffers and '
          'derived views rely on C02 (every derived pixel is a source pixel); the allocator is a ghost block table.',
     technique='function contracts (layout contract as callee contract, ghost allocator, representation invariant) discharged as integer-theory VCs (goto program -> z3 5.1) on extracted real bodies',
     design='4/C01')
